@@ -14,6 +14,7 @@ import (
 	"sigs.k8s.io/controller-runtime/pkg/client"
 
 	"github.com/openkruise/rollouts/api/v1beta1"
+	"github.com/openkruise/rollouts/pkg/webhook/rollout/validating"
 	"github.com/openkruise/rollouts/pkg/util"
 
 	"verif/harness/simapi"
@@ -86,6 +87,10 @@ func NewSharedRun(s *Scenario, repoDir, uidPrefix string) (*Run, error) {
 }
 
 func newRun(s *Scenario, repoDir string, faults *FaultPlan, uidPrefix string) (*Run, error) {
+	validating.PartitionReplicasLimitWithTraffic = 50
+	if s.PartitionLimit > 0 {
+		validating.PartitionReplicasLimitWithTraffic = s.PartitionLimit
+	}
 	w, err := NewWorld(Options{RepoDir: repoDir, GraceSeconds: s.Grace, UIDPrefix: uidPrefix})
 	if err != nil {
 		return nil, err
@@ -105,7 +110,7 @@ func (r *Run) trace(f string, a ...interface{}) {
 func (r *Run) CtrlWrites() int { return r.ctrlWrites }
 func (r *Run) CtrlCalls() int  { return r.ctrlCalls }
 
-// Mode is the expectation the run ends with: release | rolledback | deleted | disabled | bg-superseded.
+// Mode is the expectation the run ends with: release | rolledback | rollback-batches | deleted | disabled | bg-superseded.
 func (r *Run) Mode() string { return r.mode }
 
 // Rollout returns the current Rollout (nil if gone).
@@ -320,17 +325,28 @@ func (r *Run) checkTriggers() {
 	inRolling := ro.Status.Phase == v1beta1.RolloutPhaseProgressing && cond != nil && (cond.Reason == "InRolling" || cond.Reason == "Paused")
 	for i := range r.S.Events {
 		e := &r.S.Events[i]
-		if e.fired || !inRolling {
+		if e.fired {
 			continue
 		}
-		if int(ss.CurrentStepIndex) == e.AtStep && string(ss.CurrentStepState) == e.AtState {
+		hit := false
+		if e.AtFinalising != "" {
+			fs := string(ss.FinalisingStep)
+			hit = ro.Status.Phase == v1beta1.RolloutPhaseProgressing && fs != "" && fs != string(v1beta1.FinalisingStepTypeEnd) && (e.AtFinalising == "*" || e.AtFinalising == fs)
+		} else {
+			hit = inRolling && int(ss.CurrentStepIndex) == e.AtStep && string(ss.CurrentStepState) == e.AtState
+		}
+		if hit {
 			e.fired = true
 			r.EventsFired++
-			r.userQueue = append(r.userQueue, e.Action)
+			if e.Immediate {
+				r.doUser(e.Action)
+			} else {
+				r.userQueue = append(r.userQueue, e.Action)
+			}
 		}
 	}
 	// approval
-	if inRolling && cond.Reason == "InRolling" && ss.CurrentStepState == v1beta1.CanaryStepStatePaused && r.mode == "release" {
+	if inRolling && cond.Reason == "InRolling" && ss.CurrentStepState == v1beta1.CanaryStepStatePaused && (r.mode == "release" || r.mode == "rollback-batches") {
 		idx := int(ss.CurrentStepIndex)
 		if idx >= 1 && idx <= len(ro.Spec.Strategy.GetSteps()) && ro.Spec.Strategy.GetSteps()[idx-1].Pause.Duration == nil {
 			if r.pausedSeenAt < 0 {
@@ -392,7 +408,14 @@ func (r *Run) doUser(a string) {
 		err = user.Status().Patch(c, ro, client.RawPatch(types.MergePatchType, []byte(body)))
 	case "rollback":
 		err = s.SetTemplate(w, "v1")
-		r.mode, r.target = "rolledback", "v1"
+		r.target = "v1"
+		if r.mode != "deleted" && r.mode != "disabled" {
+			r.mode = "rolledback"
+			if s.RollbackInBatch && s.Kind == "cloneset" && !s.HasTraffic() {
+				// the plan is walked again towards the old revision: approvals are needed as in a release
+				r.mode = "rollback-batches"
+			}
+		}
 	case "v3":
 		err = s.SetTemplate(w, "v3")
 		if s.Style != "bluegreen" {
@@ -407,12 +430,16 @@ func (r *Run) doUser(a string) {
 			break
 		}
 		err = user.Delete(c, ro)
-		r.mode = "deleted"
+		if err == nil {
+			r.mode = "deleted"
+		}
 	case "disable":
 		ro := &v1beta1.Rollout{}
 		ro.Namespace, ro.Name = s.NS, s.RolloutName()
 		err = user.Patch(c, ro, client.RawPatch(types.MergePatchType, []byte(`{"spec":{"disabled":true}}`)))
-		r.mode = "disabled"
+		if err == nil && r.mode != "deleted" {
+			r.mode = "disabled"
+		}
 	case "scale":
 		n, _ := strconv.Atoi(arg)
 		err = s.Scale(w, int32(n))
@@ -558,7 +585,7 @@ func (r *Run) Execute() {
 			}
 		}
 		if !r.step() {
-			if r.pausedSeenAt >= 0 && len(r.userQueue) == 0 && r.mode == "release" {
+			if r.pausedSeenAt >= 0 && len(r.userQueue) == 0 && (r.mode == "release" || r.mode == "rollback-batches") {
 				// the cluster is quiet and waits for the user's approval: grant it now
 				r.userQueue = append(r.userQueue, "approve")
 				continue
